@@ -58,6 +58,18 @@ func corpus() []Case {
 				{Name: "h", Kind: "reg", Mode: 0o644, Mtime: 1, Data: seqBytes(14, 100)}, {Name: "i", Kind: "reg", Mode: 0o644, Mtime: 1, Data: seqBytes(16, 150)}},
 			Ops: []Op{{Op: "pt", File: 0, Mbs: 8, Workers: 0}, {Op: "pt", File: 1, Mbs: 6, Workers: 2}, {Op: "pt", File: 2, Mbs: 3, Workers: 1},
 				{Op: "pt", File: 3, Mbs: 8, Workers: 3}, {Op: "read", File: 0, Off: 3, Len: 9}, {Op: "pt", File: 0, Mbs: 8, Workers: 2}}},
+		// two layers of the same shape through one resolver: same node ids and chunk keys, different bytes; A read before B
+		{Kind: "layers", ChunkSize: 4,
+			Layers: [][]Ent{
+				{{Name: "f0", Kind: "reg", Mode: 0o644, Mtime: 1, Data: seqBytes(10, 1)}, {Name: "f1", Kind: "reg", Mode: 0o644, Mtime: 1, Data: seqBytes(10, 20)}, {Name: "f2", Kind: "reg", Mode: 0o644, Mtime: 1, Data: seqBytes(10, 40)}},
+				{{Name: "f0", Kind: "reg", Mode: 0o644, Mtime: 1, Data: seqBytes(10, 101)}, {Name: "f1", Kind: "reg", Mode: 0o644, Mtime: 1, Data: seqBytes(10, 120)}, {Name: "f2", Kind: "reg", Mode: 0o644, Mtime: 1, Data: seqBytes(10, 140)}}},
+			LReads: []LRead{{0, 0, 0, 10}, {0, 1, 0, 10}, {0, 2, 0, 10}, {1, 0, 0, 10}, {1, 1, 0, 10}, {1, 2, 0, 10}, {0, 1, 3, 5}, {1, 2, 5, 9}}},
+		// db readChunks order: chunk offsets reach 64 and more (their bbolt keys are zig-zag varints)
+		{Kind: "serve", ChunkSize: 4, Workers: 1, Cache: "mem",
+			Tar: []Ent{{Name: "big", Kind: "reg", Mode: 0o644, Mtime: 1, Data: seqBytes(150, 3)}, {Name: "x", Kind: "reg", Mode: 0o600, Mtime: 1, Data: seqBytes(70, 9),
+				Xattrs: map[string]string{"user.a": "value-a", "user.b": "value-b", "user.c": "value-c"}}},
+			Ops: []Op{{Op: "read", File: 0, Off: 60, Len: 20}, {Op: "read", File: 0, Off: 0, Len: 150}, {Op: "grow"}, {Op: "read", File: 0, Off: 126, Len: 30}, {Op: "read", File: 1, Off: 62, Len: 8},
+				{Op: "evictall"}, {Op: "read", File: 0, Off: 100, Len: 33}}},
 		// dangling hardlink: the layer is not servable
 		{Kind: "serve", ChunkSize: 4, Workers: 1, Cache: "mem", Tar: []Ent{{Name: "a", Kind: "hardlink", Link: "nope", Mtime: 1}}},
 		{Kind: "clean", Name: "../a/./b//c/../d/"},
